@@ -158,33 +158,46 @@ def unionAll {π : Type} : List (Fib κ π) → Fib κ (List (Option π))
 /-- `_mergeToFibertree(to_merge, merge_fn)`: one payload is returned as it is; leaves go through
     `merge_fn`; fibers are united coordinate by coordinate and every operand that does not present
     a coordinate contributes its *default* (`Payload.get(ps)[1:]`), so `merge_fn` also receives
-    the defaults of the absent operands. -/
-def mergeTrees (mf : List ν → Option ν) (dflt : ν) : (r : Nat) → List (Tree κ ν r) → Option (Tree κ ν r)
+    the defaults of the absent operands.  The fibers it creates (`Fiber(coords, payloads,
+    active_range=…)`, fiber.py:4388) are given no default, i.e. `z` = 0, and stay un-owned while
+    `_mergeRanksHelper` runs: every operand therefore travels with the default its leaf fibers
+    carry (`dflt` for the tensor's own fibers, `z` for those made here). -/
+def mergeTrees (mf : List ν → Option ν) (z : ν) :
+    (r : Nat) → List (Tree κ ν r × ν) → Option (Tree κ ν r × ν)
   | 0, xs => match xs with
     | [] => none
     | [x] => some x
-    | _ => mf xs
+    | _ => (mf (xs.map (fun x => x.1))).map (fun v => (v, z))
   | r + 1, xs => match xs with
     | [] => none
     | [x] => some x
     | _ =>
-      (mapM? (fun row => (mergeTrees mf dflt r
-                  (row.2.map (fun o => o.getD (defaultTree dflt r)))).map (fun t => (row.1, t)))
-        (unionAll (xs.map (fun x => present dflt r x)))).map
-        (fun l => show List (κ × Tree κ ν r) from l)
+      (mapM? (fun row => (mergeTrees mf z r
+                  ((row.2.zip (xs.map (fun x => x.2))).map
+                    (fun od => (od.1.getD (defaultTree od.2 r), od.2)))).map (fun t => (row.1, t.1)))
+        (unionAll (xs.map (fun x => present x.2 r x.1)))).map
+        (fun l => ((show List (κ × Tree κ ν r) from l), z))
+
+/-- a payload together with the default of its leaf fibers -/
+def tagWith {π : Type} (d : ν) (f : Fib κ π) : Fib κ (π × ν) := f.map (fun e => (e.1, (e.2, d)))
+def untag {π : Type} (f : Fib κ (π × ν)) : Fib κ π := f.map (fun e => (e.1, e.2.1))
 
 /-- the second half of `_mergeRanksHelper` (fiber.py:4300-4327) on what the payload fibers
     present: group by new coordinate, merge every group -/
-def mergeRows (comb : κ → κ → κ) (mf : List ν → Option ν) (dflt : ν) (r : Nat)
-    (rows : Fib κ (Fib κ (Tree κ ν r))) : Option (Tree κ ν (r + 1)) :=
-  (mapM? (fun row => (mergeTrees mf dflt r row.2).map (fun t => (row.1, t))) (gather comb rows)).map
-    (fun l => show List (κ × Tree κ ν r) from l)
+def mergeRows (comb : κ → κ → κ) (mf : List ν → Option ν) (z : ν) (r : Nat)
+    (rows : Fib κ (Fib κ (Tree κ ν r × ν))) : Option (Fib κ (Tree κ ν r × ν)) :=
+  mapM? (fun row => (mergeTrees mf z r row.2).map (fun t => (row.1, t))) (gather comb rows)
+
+/-- `_mergeRanksHelper(levels=1)`, payloads still tagged -/
+def merge2T (comb : κ → κ → κ) (mf : List ν → Option ν) (z dflt : ν) (r : Nat)
+    (f : Tree κ ν (r + 2)) : Option (Fib κ (Tree κ ν r × ν)) :=
+  mergeRows comb mf z r
+    ((show List (κ × Tree κ ν (r + 1)) from f).map (fun e => (e.1, tagWith dflt (present dflt r e.2))))
 
 /-- `_mergeRanksHelper(levels=1)`: the top two ranks of a tree of depth `r+2` become one -/
-def merge2 (comb : κ → κ → κ) (mf : List ν → Option ν) (dflt : ν) (r : Nat)
+def merge2 (comb : κ → κ → κ) (mf : List ν → Option ν) (z dflt : ν) (r : Nat)
     (f : Tree κ ν (r + 2)) : Option (Tree κ ν (r + 1)) :=
-  mergeRows comb mf dflt r
-    ((show List (κ × Tree κ ν (r + 1)) from f).map (fun e => (e.1, present dflt r e.2)))
+  (merge2T comb mf z dflt r f).map (fun l => show List (κ × Tree κ ν r) from untag l)
 
 /-- The fiber `_mergeRanksHelper` returns takes its default and its shape from the *last*
     payload fiber it looked at (`default = p1.getDefault()`, `low_shape = p1.getShape(..)`,
@@ -197,13 +210,13 @@ def lastOk (r : Nat) : (l : Nat) → Tree κ ν (r + 2 + l) → Bool
     | none => false
     | some e => lastOk r l e.2
 
-/-- the default iteration over a merged payload fiber uses to skip empty elements: leaves are
-    compared with the merged fiber's own default (`z` = `Payload(0)` when `lastOk` fails);
-    sub-fibers are asked `isEmpty()` themselves -/
-def presDefault (z dflt : ν) (r : Nat) (ok : Bool) : ν :=
-  match r with
-  | 0 => if ok then dflt else z
-  | _ => dflt
+/-- what iteration over a merged payload fiber presents: leaves are compared with the merged
+    fiber's own default (`z` = `Payload(0)` when `lastOk` fails); sub-fibers are asked
+    `isEmpty()` themselves (their own leaf default) -/
+def presentT (z dflt : ν) (ok : Bool) :
+    (r : Nat) → Fib κ (Tree κ ν r × ν) → Fib κ (Tree κ ν r × ν)
+  | 0, sub => sub.filter (fun e => !isEmpty (κ := κ) (if ok then dflt else z) 0 e.2.1)
+  | r + 1, sub => sub.filter (fun e => !isEmpty e.2.2 (r + 1) e.2.1)
 
 /-- `_mergeRanksHelper(levels = l+1)`: deeper levels first (on every stored payload), then the
     top two.  `comb l` combines the top coordinate with the already merged one below when `l`
@@ -211,17 +224,21 @@ def presDefault (z dflt : ν) (r : Nat) (ok : Bool) : ν :=
     `lin` (linear style) a merged payload fiber that has elements but no shape makes
     `_flattenCoords` assert.  The `elif not self.coords` shortcut is the `[]` instance of the
     general path. -/
-def mergeLv (lin : Bool) (z : ν) (comb : Nat → κ → κ → κ) (mf : List ν → Option ν) (dflt : ν) (r : Nat) :
-    (l : Nat) → Tree κ ν (r + 2 + l) → Option (Tree κ ν (r + 1))
-  | 0, f => merge2 (comb 0) mf dflt r f
+def mergeLvT (lin : Bool) (z : ν) (comb : Nat → κ → κ → κ) (mf : List ν → Option ν) (dflt : ν) (r : Nat) :
+    (l : Nat) → Tree κ ν (r + 2 + l) → Option (Fib κ (Tree κ ν r × ν))
+  | 0, f => merge2T (comb 0) mf z dflt r f
   | l + 1, f =>
-    match mapM? (fun e => (mergeLv lin z comb mf dflt r l e.2).bind (fun t =>
+    match mapM? (fun e => (mergeLvT lin z comb mf dflt r l e.2).bind (fun t =>
               let ok := lastOk r l e.2
-              let pr := present (presDefault z dflt r ok) r t
+              let pr := presentT z dflt ok r t
               if lin && !ok && !pr.isEmpty then none else some (e.1, pr)))
             (show List (κ × Tree κ ν (r + 2 + l)) from f) with
     | none => none
-    | some rows => mergeRows (comb (l + 1)) mf dflt r rows
+    | some rows => mergeRows (comb (l + 1)) mf z r rows
+
+def mergeLv (lin : Bool) (z : ν) (comb : Nat → κ → κ → κ) (mf : List ν → Option ν) (dflt : ν) (r l : Nat)
+    (f : Tree κ ν (r + 2 + l)) : Option (Tree κ ν (r + 1)) :=
+  (mergeLvT lin z comb mf dflt r l f).map (fun l' => show List (κ × Tree κ ν r) from untag l')
 
 /-- The active range `_mergeRanksHelper` computes for its result with the tuple / pair styles
     (fiber.py:4304-4308, 4353-4354) is `((start, range_start), (end, range_end))` where
@@ -299,7 +316,7 @@ def isort {π : Type} : Fib κ π → Fib κ π
     coordinate, unflatten.  `assert len(flattened.coords) > 0` → `none`. -/
 def swapFiber (comb : κ → κ → κ) (rev hd tl : κ → κ) (dflt : ν) (r : Nat)
     (f : Tree κ ν (r + 2)) : Option (Tree κ ν (r + 2)) :=
-  match merge2 comb mfRaise dflt r f with
+  match merge2 comb mfRaise dflt dflt r f with
   | none => none
   | some fl =>
     if (show List (κ × Tree κ ν r) from fl).isEmpty then none
